@@ -56,13 +56,18 @@ pub enum Kind {
     /// a function of its own with a `self` cell AND a delay line (`self * 0.5 + delay(N, x, D)`);
     /// an inner edit resizes the delay line, leaving the `self` cell untouched next to it
     FeedDly,
+    /// a randomly generated voice (grammar + reference interpreter in `randvoice.rs`): `rand` holds
+    /// its functions; every instance has a state shape of its own
+    Rand,
 }
 
 /// Kinds used for generation. `Kind::Gate` (stateful calls in both arms of an `if`) is NOT in this
 /// list: on the pinned tree the VM underflows its state position on such programs (panic with
 /// overflow checks, heap corruption / abort without) even in a fault-free run. That is a crash of
 /// an accepted program (C03/C05 territory, not claimed here) and would only kill workers.
-pub const ALL_KINDS: [Kind; 28] = [
+pub const ALL_KINDS: [Kind; 30] = [
+    Kind::Rand,
+    Kind::Rand,
     Kind::FeedDly,
     Kind::InMem,
     Kind::InDly,
@@ -137,6 +142,9 @@ pub struct Voice {
     /// sub-voices of a composite (`Duo`)
     #[serde(default)]
     pub subs: Vec<Voice>,
+    /// the generated functions of a `Kind::Rand` voice
+    #[serde(default)]
+    pub rand: Option<crate::randvoice::RVoice>,
 }
 
 /// kinds that may appear inside a composite: one scalar result, no dsp inputs needed
@@ -186,6 +194,7 @@ impl Voice {
             Kind::InMem => "mem".into(),
             Kind::InDly => "delay".into(),
             Kind::FeedDly => format!("feeddly{}", self.id),
+            Kind::Rand => format!("rv{}_0", self.id),
         };
         base
     }
@@ -206,7 +215,7 @@ impl Voice {
             Kind::Counter | Kind::SrPhase | Kind::ArrPhase | Kind::GlobK | Kind::MainCl => vec![lit(self.p[0])],
             Kind::Duo | Kind::DlySrc | Kind::FeedDly => vec![],
             Kind::Leaky => vec![x, lit(self.p[0])],
-            Kind::Lag2 | Kind::Mfb | Kind::Mmf | Kind::InMem => vec![x],
+            Kind::Lag2 | Kind::Mfb | Kind::Mmf | Kind::InMem | Kind::Rand => vec![x],
             Kind::Echo => vec![x, lit(self.p[0])],
             Kind::InDly => vec![format!("{}", self.n), x, lit(self.p[0])],
             Kind::EchoMod => vec![x, lit(self.p[0]), lit(self.p[1])],
@@ -260,6 +269,7 @@ impl Voice {
         );
         let n = self.n;
         let mut d = match self.kind {
+            Kind::Rand => self.rand.as_ref().map(|r| r.defs(self.id)).unwrap_or_default(),
             Kind::Counter => vec![cnt],
             Kind::Leaky => vec![(
                 "leaky".into(),
@@ -451,6 +461,8 @@ pub struct Model {
     pub w: usize,
     /// models of the sub-voices of a composite
     pub subs: Vec<Model>,
+    /// interpreter state of a `Kind::Rand` voice
+    pub rstate: Option<crate::randvoice::FnState>,
 }
 
 impl Model {
@@ -460,7 +472,7 @@ impl Model {
             Kind::Lag2 | Kind::Mfb | Kind::Pair | Kind::Nest | Kind::CntMem | Kind::Late | Kind::TupCalls => 2,
             Kind::ArgCall => 4,
             Kind::Gate | Kind::Wide | Kind::Deep | Kind::Mmf | Kind::LateMem | Kind::RecCalls => 3,
-            Kind::Echo | Kind::Duo | Kind::InDly => 0,
+            Kind::Echo | Kind::Duo | Kind::InDly | Kind::Rand => 0,
             Kind::EchoMod | Kind::Comb | Kind::DlySrc | Kind::FeedDly => 1,
         };
         let ring = match v.kind {
@@ -472,6 +484,7 @@ impl Model {
             ring,
             w: 0,
             subs: v.subs.iter().map(Model::zero).collect(),
+            rstate: v.rand.as_ref().map(|r| r.zero_state(0)),
         }
     }
 
@@ -508,6 +521,10 @@ impl Model {
                 self.s[0] += p[0];
                 self.s[0]
             }
+            Kind::Rand => match (v.rand.as_ref(), self.rstate.as_mut()) {
+                (Some(r), Some(st)) => r.eval_fn(0, st, x),
+                _ => 0.0,
+            },
             Kind::SrPhase => {
                 self.s[0] += p[0] / sample_rate;
                 self.s[0]
@@ -728,7 +745,7 @@ pub fn gen_voice(rng: &mut Rng, id: u32, kind: Kind, n_in: u32, max_delay: u32) 
             p[0] = rng.range(1, (n - 1) as u64) as f64;
             p[1] = *rng.pick(&[0.0, 0.25, 0.5, 0.75]);
         }
-        Kind::Lag2 | Kind::Mfb | Kind::Mmf | Kind::InMem => {}
+        Kind::Lag2 | Kind::Mfb | Kind::Mmf | Kind::InMem | Kind::Rand => {}
     }
     // On the pinned tree the VM looks up the ring size of EVERY `delay` of a function at index 0 of
     // the function's `delay_sizes` (`delaysizes_pos_stack` is pushed as 0 per call and never
@@ -743,7 +760,11 @@ pub fn gen_voice(rng: &mut Rng, id: u32, kind: Kind, n_in: u32, max_delay: u32) 
         input,
         wrap: 0,
         subs: vec![],
+        rand: None,
     };
+    if kind == Kind::Rand {
+        v.rand = Some(crate::randvoice::gen_rvoice(rng, max_delay));
+    }
     if kind == Kind::Duo {
         // sub ids are derived here and re-assigned by the program generator when it needs them
         // to be globally fresh (inner edits)
@@ -778,6 +799,7 @@ pub fn tweak_constant(rng: &mut Rng, v: &mut Voice) -> bool {
             true
         }
         Kind::ArrPhase => false,
+        Kind::Rand => v.rand.as_mut().map(|r| r.tweak(rng)).unwrap_or(false),
         Kind::DlySrc | Kind::FeedDly => {
             let n = v.n as u64;
             if n <= 2 {
